@@ -1088,6 +1088,8 @@ def _read_byte_str(ctx: ReaderContext) -> bytes:
 
     char = _consume_whitespace(ctx)
 
+    if char == "":
+        raise ctx.eof_error("Unexpected EOF in byte string")
     if char != '"':
         raise ctx.syntax_error(f"Expected '\"'; got '{char}' instead")
 
@@ -1097,7 +1099,7 @@ def _read_byte_str(ctx: ReaderContext) -> bytes:
         if char == "":
             raise ctx.eof_error("Unexpected EOF in byte string")
         if ord(char) < 1 or ord(char) > 127:
-            raise ctx.eof_error("Byte strings must contain only ASCII characters")
+            raise ctx.syntax_error("Byte strings must contain only ASCII characters")
         if char == "\\":
             char = reader.next_char()
             escape_char = _BYTES_ESCAPE_CHARS.get(char, None)
@@ -1107,6 +1109,10 @@ def _read_byte_str(ctx: ReaderContext) -> bytes:
             elif char == "x":
                 b.append(_read_hex_byte(ctx))
                 continue
+            elif char != "" and ord(char) > 127:
+                raise ctx.syntax_error(
+                    "Byte strings must contain only ASCII characters"
+                )
             else:
                 # In Python, invalid escape sequences entered into byte strings are
                 # retained with backslash for debugging purposes, so we do the same.
